@@ -339,6 +339,7 @@ func (ip *instrPkg) run() {
 	if ip.mode == "full" {
 		var sb strings.Builder
 		sb.WriteString("//go:build verif\n\npackage " + p.Name + "\n\nimport vsched \"" + vschedPkg + "\"\n\n")
+		sb.WriteString("var _ = vsched.Active\n\n")
 		sb.WriteString("// VerifReset brings every package-level variable back to its initial value and re-runs the init functions.\nfunc VerifReset() {\n")
 		sort.Strings(zeroVars)
 		for _, v := range zeroVars {
@@ -348,7 +349,7 @@ func (ip *instrPkg) run() {
 			sb.WriteString("\t" + c + "\n")
 		}
 		for _, c := range ip.initFuncs {
-			sb.WriteString("\t" + c + "()\n")
+			sb.WriteString("\t" + c + "(true)\n")
 		}
 		sb.WriteString("}\n")
 		dst := filepath.Join(ip.outDir, "zz_verif_reset.go")
@@ -465,15 +466,19 @@ func (ip *instrPkg) rewriteFile(f *ast.File, name string) {
 			if !ok || fd.Recv != nil || fd.Name.Name != "init" {
 				continue
 			}
-			var buf bytes.Buffer
-			_ = format.Node(&buf, fset, fd.Body)
 			newName := fmt.Sprintf("verifInit_%s_%d", sanitize(filepath.Base(name)), len(ip.initFuncs))
 			fd.Name = ast.NewIdent(newName)
-			add = append(add, &ast.FuncDecl{Name: ast.NewIdent("init"), Type: &ast.FuncType{Params: &ast.FieldList{}},
-				Body: &ast.BlockStmt{List: []ast.Stmt{&ast.ExprStmt{X: &ast.CallExpr{Fun: ast.NewIdent(newName)}}}}})
-			if strings.Contains(buf.String(), "flag.") {
-				continue // registers command line flags: cannot run twice
+			// the function gets a parameter: statements that register command line flags cannot run twice
+			fd.Type.Params = &ast.FieldList{List: []*ast.Field{{Names: []*ast.Ident{ast.NewIdent("verifRerun")}, Type: ast.NewIdent("bool")}}}
+			for i, st := range fd.Body.List {
+				var buf bytes.Buffer
+				_ = format.Node(&buf, fset, st)
+				if strings.Contains(buf.String(), "flag.") {
+					fd.Body.List[i] = &ast.IfStmt{Cond: &ast.UnaryExpr{Op: token.NOT, X: ast.NewIdent("verifRerun")}, Body: &ast.BlockStmt{List: []ast.Stmt{st}}}
+				}
 			}
+			add = append(add, &ast.FuncDecl{Name: ast.NewIdent("init"), Type: &ast.FuncType{Params: &ast.FieldList{}},
+				Body: &ast.BlockStmt{List: []ast.Stmt{&ast.ExprStmt{X: &ast.CallExpr{Fun: ast.NewIdent(newName), Args: []ast.Expr{ast.NewIdent("false")}}}}}})
 			ip.initFuncs = append(ip.initFuncs, newName)
 		}
 		f.Decls = append(f.Decls, add...)
@@ -604,7 +609,8 @@ func (ip *instrPkg) rewriteChanRange(r *ast.RangeStmt, call func(string, ...ast.
 		_ = tmpv
 		die("range over channel with '=' not supported")
 	}
-	body := append([]ast.Stmt{recvStmt, &ast.IfStmt{Cond: &ast.UnaryExpr{Op: token.NOT, X: ok}, Body: &ast.BlockStmt{List: []ast.Stmt{&ast.BranchStmt{Tok: token.BREAK}}}}}, r.Body.List...)
+	body := []ast.Stmt{recvStmt, &ast.IfStmt{Cond: &ast.UnaryExpr{Op: token.NOT, X: ok}, Body: &ast.BlockStmt{List: []ast.Stmt{&ast.BranchStmt{Tok: token.BREAK}}}},
+		&ast.BlockStmt{List: r.Body.List}}
 	return &ast.BlockStmt{List: []ast.Stmt{
 		&ast.AssignStmt{Lhs: []ast.Expr{ch}, Tok: token.DEFINE, Rhs: []ast.Expr{r.X}},
 		&ast.ForStmt{Body: &ast.BlockStmt{List: body}},
@@ -636,10 +642,12 @@ func (ip *instrPkg) rewriteMapRange(r *ast.RangeStmt, call func(string, ...ast.E
 	if r.Value != nil && !isBlank(r.Value) {
 		val = r.Value
 	}
-	body := append([]ast.Stmt{
+	body := ([]ast.Stmt{
 		&ast.AssignStmt{Lhs: []ast.Expr{val, ok}, Tok: token.DEFINE, Rhs: []ast.Expr{&ast.IndexExpr{X: m, Index: key}}},
 		&ast.IfStmt{Cond: &ast.UnaryExpr{Op: token.NOT, X: ok}, Body: &ast.BlockStmt{List: []ast.Stmt{&ast.BranchStmt{Tok: token.CONTINUE}}}},
-	}, r.Body.List...)
+		// the original body keeps its own scope (it may redeclare the loop variables)
+		&ast.BlockStmt{List: r.Body.List},
+	})
 	nr := &ast.RangeStmt{Key: ast.NewIdent("_"), Value: key, Tok: token.DEFINE, X: call("Keys", m), Body: &ast.BlockStmt{List: body}}
 	if len(pre) == 0 {
 		return nr
